@@ -14,6 +14,8 @@ def _lineage_model(with_rxn, growth=True, division=True, death=False):
     if division:
         vs = LineageVolumeSplitter(M, options={"B": "duplicate"}, partition_noise=0.1)
         M.create_division_rule("deltaV", {"threshold": 1.0}, vs)
+    if death:
+        M.create_death_event("death", {}, "massaction", {"k": 0.25, "species": ""})
     M.py_initialize()
     return M
 
@@ -105,9 +107,9 @@ def replay(spec):
             if problems:
                 return {"reproduced": True, "observed": problems[:2], "expected": "every row simulated, positive volume"}
     if kind == "lineage":
-        for seed in (1, 2, 3):
+        for seed in ((1, 2, 3, 4, 5, 6, 7, 8) if spec.get("death") else (1, 2, 3)):
             py_seed_random(seed)
-            M = _lineage_model(True)
+            M = _lineage_model(True, death=bool(spec.get("death")))
             lin = py_SimulateCellLineage(np.arange(0, 5, 0.25), Model=M)
             n = lin.py_size()
             for i in range(n):
